@@ -1,0 +1,6 @@
+//go:build !verif
+// +build !verif
+
+package ipfix
+
+func vhook(ev string, shard *TemplatesShard, key uint32) {}
